@@ -45,16 +45,19 @@ def cells(tier):
             [("ZM-VFNS", 3, (1, 1, 1)), ("ZM-VFNS", 5, (1, 1, 1)), ("FFNS", 3, (0, 0, 0)), ("FFN0", 4, (1, 0, 0))], [0, 2]):
         if proc == "CC" and kind in ("g1", "gL", "g4"):
             continue
-        if q and (nf + pto + len(kind) + len(flav) + len(proc) + abs(pid)) % 5:
+        if q and (nf + pto + len(kind) + len(flav) + len(proc) + abs(pid)) % 5 and not (sch == "FFN0" and pto == 2 and kind == "F2" and pid == 11):
             continue
-        out.append(dict(obs=f"{kind}_{flav}", process=proc, pid=pid, scheme=sch, nf=nf, ZMq=tuple(bool(z) for z in zm), pto=pto))
+        out.append(dict(obs=f"{kind}_{flav}", process=proc, pid=pid, scheme=sch, nf=nf, ZMq=tuple(bool(z) for z in zm), pto=pto,
+                        a_first=bool((len(out) % 2))))
     return out
 
 
 def pairs_combiner(cell, P, Q2, Z, A):
     kw = dict(obs=cell["obs"], process=cell["process"], pid=cell["pid"], Q2=Q2, scheme=cell["scheme"], nf=cell["nf"],
               ZMq=cell["ZMq"], pto=cell["pto"], pto_evol=min(cell["pto"], 2))
-    ft = cm.linear_form(cm.run_combiner(P, target={"Z": Z, "A": A}, **kw))
+    # the (Z, A) dictionary may list its keys in either order (yaml.safe_dump sorts them: A first)
+    tgt = {"A": A, "Z": Z} if cell.get("a_first") else {"Z": Z, "A": A}
+    ft = cm.linear_form(cm.run_combiner(P, target=tgt, **kw))
     fp = cm.linear_form(cm.run_combiner(P, target={"Z": 1.0, "A": 1.0}, **kw))
     ref = rotate_form(fp, Z, A)
     out = []
@@ -214,6 +217,8 @@ def run(chk, only=None):
                 ex = explore.Explorer(ctx, max_paths=16, timeout_ms=3000)
                 paths = ex.run(body)
                 chk.paths += len(paths)
+                if paths and not any(p.kind == "ok" for p in paths) and not all(isinstance(p.value, (ValueError, NotImplementedError)) for p in paths):
+                    chk.inconclusive_note(f"{cname}: vacuity -- every path raised ({type(paths[0].value).__name__}: {str(paths[0].value)[:80]})")
                 for p in paths:
                     ctx.assign = dict(p.assign)  # replays fall back to this path's witness point
                     if p.kind == "exc":
